@@ -575,8 +575,8 @@ func main() {
 		fv := []string{"\x00\x00", "\x00\xff", "a\x00", "aa", "a\xff", "\xff\x00", "\xffa", "\xff\xff"}
 		if thorough {
 			exhaustiveC(w, r, 9, []int{-1, 0, 1})
-			exhaustiveU(w, "I", 5, iv)
-			exhaustiveU(w, "U", 5, iv)
+			exhaustiveU(w, "I", 4, iv)
+			exhaustiveU(w, "U", 4, iv)
 			exhaustiveS(w, 5, sv, -1)
 			exhaustiveS(w, 4, fv, 2)
 		} else {
@@ -589,9 +589,9 @@ func main() {
 	case "random":
 		r := rng.FromEnv(707)
 		if thorough {
-			randomC(w, r, 5000, 300)
-			randomU(w, r, 6000, 400)
-			randomS(w, r, 4000, 300)
+			randomC(w, r, 3000, 300)
+			randomU(w, r, 3000, 400)
+			randomS(w, r, 2500, 300)
 		} else {
 			randomC(w, r, 250, 160)
 			randomU(w, r, 240, 300)
